@@ -85,8 +85,8 @@ func verifRpmPayload(o scen.Options) {
 	}
 }
 
-// Verif_C01_C_RpmSources_Thorough: a tree, a directory source expanded by the glob model, an on-disk symlink.
-func Verif_C01_C_RpmSources_Thorough() { verifRpmPayload(scen.Options{Second: -4}) }
+// Verif_C01_C_RpmSources: a tree, a directory source expanded by the glob model, an on-disk symlink.
+func Verif_C01_C_RpmSources() { verifRpmPayload(scen.Options{Second: -4}) }
 
 // Verif_C01_C_RpmAll_Thorough: modes, umask, owners, content, destination and entry type symbolic at once.
 func Verif_C01_C_RpmAll_Thorough() {
